@@ -889,6 +889,12 @@ def candidates(scn):
                 c['schedules'][si]['switches'] = {k: v for k, v in s['switches'].items() if k not in drop}
                 yield c
             size //= 2
+        # unaligned pairs (there-and-back switches)
+        for i in range(1, n - 1, 2):
+            drop = set(keys[i:i + 2])
+            c = copy.deepcopy(scn)
+            c['schedules'][si]['switches'] = {k: v for k, v in s['switches'].items() if k not in drop}
+            yield c
 
 
 def summary(scn):
